@@ -23,6 +23,8 @@ tg = mod.targets('quick') if callable(getattr(mod, 'targets', None)) else mod.TA
 for t in tg:
 	q, i, ov = (t + (None, None))[:3]
 	if q.endswith(qual) and (inst is None or i == inst):
+		if len(t) > 3 and t[3] is not None:
+			eng.registry = Registry(); t[3](eng.registry)
 		t0 = time.time()
 		eng.verify_function(q, i, ov)
 		print('generated', len(eng.obligations), 'in', round(time.time() - t0, 1), 's; paths', eng.paths)
